@@ -1,5 +1,6 @@
 (* C02's hypothesis (H1) (`stmt_atomic`: a statement that returns an error changed no page) derived
-   from the refinement invariant, for histories of statements, flushes and crash-restarts.
+   from the refinement invariant, for histories of statements, flushes, crash-restarts, crashes
+   inside a log append (C03) and crashes inside a flush (C04).
    `hist_ok2` (a boolean) keeps only: literals are Go values (RefineMain.stmt_ok), the allocation
    frontier after the statement is <= 2^63. No (H1), no (H2): hist_ok2 -> hist_ok1 -> hist_ok. *)
 From Coq Require Import Arith Lia Bool List NArith ZArith String.
@@ -21,11 +22,15 @@ Proof.
     unfold np_hyp. destruct st; try exact Hst; (apply andb_true_iff; split; [exact Hst | apply N.leb_le; exact Hmax]).
 Qed.
 
+(* a crash inside the log append of st (C03's event) asks of st what EvStmt asks; a crash inside a
+   flush (C04's event) asks nothing: when the model has no torn file the step fails and the
+   history ends there *)
 Definition ev_ok2 (y : sys) (ev : event) : bool :=
   match ev with
   | EvStmt st => RefineMain.stmt_ok st && N.leb (nextFree (e_store (run_stmt (mem y) st))) OFFMAX
   | EvFlush | EvCrash => true
-  | _ => false
+  | EvCrashInLog st _ => RefineMain.stmt_ok st && N.leb (nextFree (e_store (run_stmt (mem y) st))) OFFMAX
+  | EvTornFlush _ => true
   end.
 
 Fixpoint hist_ok2 (y : sys) (evs : list event) : bool :=
@@ -36,9 +41,11 @@ Fixpoint hist_ok2 (y : sys) (evs : list event) : bool :=
 
 Lemma ev_ok2_ok1 y ev : RInv y -> ev_ok2 y ev = true -> ev_ok1 y ev.
 Proof.
-  intros (_ & _ & d & HR) H. destruct ev; cbn [ev_ok2 ev_ok1] in *; try exact I; try discriminate.
-  apply andb_true_iff in H as [Hst Hmax]. apply N.leb_le in Hmax.
-  split; [exact (rep_stmt_atomic (mem y) d st HR Hst Hmax) | split; assumption].
+  intros (_ & _ & d & HR) H. destruct ev; cbn [ev_ok2 ev_ok1] in *; try exact I.
+  - apply andb_true_iff in H as [Hst Hmax]. apply N.leb_le in Hmax.
+    split; [exact (rep_stmt_atomic (mem y) d st HR Hst Hmax) | split; assumption].
+  - apply andb_true_iff in H as [Hst Hmax]. apply N.leb_le in Hmax.
+    split; [exact (rep_stmt_atomic (mem y) d st HR Hst Hmax) | split; assumption].
 Qed.
 
 Lemma hist_ok2_hist_ok1 evs : forall y, RInv y -> hist_ok2 y evs = true -> hist_ok1 y evs.
